@@ -46,7 +46,8 @@ CHECK = {
         "CELERITAS_DEBUG is off: library assertions are not an oracle; malformed results are "
         "detected by the harness's own tree analysis before any library visitor is called",
     ],
-    "bounds": {"quick": {"effective_inserts_per_labelling": 6, "labellings": 2,
+    "bounds": {"exchange_strings": "every tree of the search is also printed with build_infix_string after exchange(node, True|False) for every node, before any simplification (constants inside joins)",
+               "quick": {"effective_inserts_per_labelling": 6, "labellings": 2,
                          "surfaces": 4, "operands": 3,
                          "chain_stack_depths": "5..40 and M-2..M+8 (16 values), x2 operators x2 negation patterns x2 labellings"},
                "thorough": {"effective_inserts_per_labelling": 7, "labellings": 2,
